@@ -1,0 +1,33 @@
+//go:build verif
+
+// Contracts for govc (comment-only file; see /verif/DESIGN.md section 3).
+package protocol
+
+//@ spec fn bytes_eq(Slice, Slice) Bool
+
+//@ pred fin(h *MultiHandler) := h.err != nil || h.result != nil
+//@ pred hinv(h *MultiHandler) := h.out != nil && h.currentRound != nil && (closed(h.out) == fin(h)) && !(h.err != nil && h.result != nil)
+
+//@ guarded_by[C17] MultiHandler.mtx: currentRound, rounds, err, result, messages, broadcast, broadcastHashes
+//@ lockinv[C17] MultiHandler.mtx := hinv(self)
+
+//@ func (*MultiHandler).Result
+//@   requires h != nil && !excl(h.mtx)
+//@   ensures[C17] !excl(h.mtx)
+//@   ensures[C17] !(result0 != nil && result1 != nil)
+
+//@ func (*MultiHandler).Listen
+//@   requires h != nil && !excl(h.mtx)
+//@   ensures[C17] !excl(h.mtx)
+
+//@ func (*MultiHandler).Stop
+//@   requires h != nil && !excl(h.mtx)
+//@   ensures[C17] !excl(h.mtx)
+
+//@ func (*MultiHandler).abort
+//@   requires h != nil && excl(h.mtx) && h.out != nil && !closed(h.out) && h.currentRound != nil
+//@   modifies MultiHandler.err, chans, Error.*, Message.*
+//@   ensures[C17] closed(h.out)
+//@   ensures[C17] err != nil ==> h.err != nil
+//@   ensures[C17] err == nil ==> h.err == old(h.err)
+//@   ensures[C17] h.out == old(h.out)
